@@ -60,6 +60,16 @@ def o1(W, ob):
 
 
 def o2(W, ob):
+    # the nonce is fresh entropy: what is remembered and what is sent are one call of rand::random()
+    sr = W.fn(UDP + '::send_sync_request')
+    cxs = W.ctx(sr)
+    ins_ = [t for t in sr.calls() if last_seg(t.callee.best) == 'insert' and t.args and t.args[0].is_place() and 'sync_random_requests' in cxs.ap_carry(t.args[0].place).s(sr)]
+    reqs = [st for f2, st in W.constructions('SyncRequest') if f2 is sr]
+    okn = len(ins_) == 1 and len(reqs) == 1 and key(cxs.expr_operand(ins_[0].args[1])) == 'rand::random()' and key(cxs.expr_operand(reqs[0].rv.ops[0])) == 'rand::random()' and \
+        len([t for t in sr.calls() if (t.callee.best or '').startswith('rand::random')]) == 1
+    ob.check(okn, 'send_sync_request|nonce-is-random', 'each sync request carries a fresh random nonce, the same value that is remembered',
+             'the handshake nonce is `%s` (remembered: `%s`): a predictable or repeated nonce lets replies meant for another session / an earlier incarnation count as round trips'
+             % (key(cxs.expr_operand(reqs[0].rv.ops[0]))[:60] if reqs else '?', key(cxs.expr_operand(ins_[0].args[1]))[:60] if ins_ else '?'), where(sr))
     r = W.fn(UDP + '::on_sync_reply')
     G = W.guards(r)
     cx = W.ctx(r)
@@ -388,4 +398,5 @@ OBLIGATIONS = [
     ('C12.S', 'state inventory', 'every field of the structs this property\'s rules read (tables/state.json) is known, and is written only by its reviewed writers (or helpers only they call): a new field is new state across calls -- a cache, a flag, a stored deadline -- that nothing has shown to stay in step; a new writer is a second place that resets, re-arms or moves something; see rules/inventory.py', inventory.state_rule_for('C12')),
     ('C12.K', 'call inventory', 'every reviewed call of a function that writes state (tables/call_edges.json, callers in the structs this property\'s rules read) is still made, directly or through helpers: a call deleted as redundant is reported; see rules/inventory.py', inventory.call_rule_for('C12')),
     ('C12.A', 'expression inventory', 'every arithmetic expression handed to a call or stored in a field, and what every closure given to an iterator adaptor / collection method returns, is one of the reviewed expressions of its function (tables/expressions.json; linear / guard normal forms, no local names): a changed literal, operator, operand order, factor, predicate or sort key is reported; see rules/inventory.py', inventory.expr_rule_for('C12')),
+    ('C12.Z', 'constants and type shapes', 'every named constant keeps its reviewed value and every type its reviewed shape -- variants and fields in order, with their types (tables/shapes.json): a ring size, sentinel, default or wire constant changed by value, a frame or checksum stored in a narrower type, a variant or field added, removed or reordered is reported; see rules/inventory.py', inventory.shape_rule),
 ]
